@@ -100,56 +100,52 @@ def rule_vacant(E, R):
             R.cannot(rule, fn, "anchor not found")
             continue
         body = h["body"]
-        target = None
-        for m in exprs(body, "Match", into_closures=False):
-            s = strip(m["scrut"])
-            if s.get("k") == "MethodCall" and s["m"] == "entry" and _reg_field(s["recv"]) == mapf:
-                target = m
-        if target is None:
-            R.violation(rule, fn, "registration goes through `%s.entry(key)`" % mapf, "no match on the map entry found", h["span"])
+        S = sem.Sem(E, h)
+        entries = [x for x in S.sites() if x.node.get("k") == "MethodCall" and x.node["m"] == "entry" and _reg_field(x.node["recv"]) == mapf]
+        if len(entries) != 1:
+            R.violation(rule, fn, "registration goes through `%s.entry(key)`" % mapf, "%d entry() calls on the table" % len(entries), h["span"])
             continue
+        ent = entries[0]
+        on_entry = lambda v, ent=ent: S.resolve(v.node, v.frame).node is ent.node
+        where_ = lambda x: sem.nested_variants(x.pc, on_entry, "Entry")
         # the key is the complete name / the type
-        key = strip(target["scrut"])["args"][0]
+        key = ent.node["args"][0]
         kn = "param#1" if is_param(chain(key)[0], h, 1) else local_name(chain(key)[0])
-        R.check(kn == "param#1", rule, fn, "the entry key is the complete %s" % ("name" if mapf == "items" else "type"), str(kn), target["sp"])
-        arms = {last_seg(pat_variant(a["pat"]) or "_"): a for a in target["arms"]}
-        vac, occ = arms.get("Vacant"), arms.get("Occupied")
-        if not vac or not occ:
-            R.violation(rule, fn, "both Vacant and Occupied arms present", str(list(arms)), target["sp"])
+        R.check(kn == "param#1" and not ent.pc, rule, fn, "the entry key is the complete %s" % ("name" if mapf == "items" else "type"), str(kn), ent.node["sp"])
+        leaves = S.result_leaves()
+        vac_ok = [x for x in leaves if norm(x.node.get("callee", "")) == "core::result::Result::Ok" and where_(x) == {"Vacant"}]
+        occ_err = [x for x in leaves if norm(x.node.get("callee", "")) == "core::result::Result::Err" and where_(x) == {"Occupied"}]
+        if not vac_ok or not occ_err:
+            R.violation(rule, fn, "both Vacant and Occupied arms present",
+                        "a vacant entry must lead to Ok, an occupied one to Err (found %d / %d such returns)" % (len(vac_ok), len(occ_err)), ent.node["sp"])
             continue
-        # all mutations of the registry live in the Vacant arm
-        muts_all = [c for c in exprs(body, "MethodCall") if c["m"] in MUT - {"entry"} and _reg_field(c["recv"])]
-        muts_vac = [c for c in exprs(vac["body"], "MethodCall") if c["m"] in MUT - {"entry"} and _reg_field(c["recv"])]
-        R.check(len(muts_all) == len(muts_vac) == 1 and muts_vac[0]["m"] == "push" and _reg_field(muts_vac[0]["recv"]) == vecf,
+        occ = {"sp": occ_err[0].node.get("sp", ""), "body": occ_err[0].node}
+        # all mutations of the registry happen for a vacant entry only
+        muts = [x for x in S.sites() if x.node.get("k") == "MethodCall" and x.node["m"] in MUT - {"entry"} and _reg_field(x.node["recv"])]
+        R.check(len(muts) == 1 and muts[0].node["m"] == "push" and _reg_field(muts[0].node["recv"]) == vecf and where_(muts[0]) == {"Vacant"},
                 rule, fn, "the only mutation is one push onto `%s`, in the Vacant arm" % vecf,
-                "all: %s, in Vacant: %s" % ([c["m"] for c in muts_all], [c["m"] for c in muts_vac]), vac["sp"])
-        occ_muts = [c for c in exprs(occ["body"], "MethodCall") if c["m"] in ("insert", "remove", "get_mut", "into_mut", "remove_entry")]
-        R.check(not occ_muts, rule, fn, "the Occupied arm changes nothing", str([c["m"] for c in occ_muts]), occ["sp"])
+                "mutations: %s" % [(x.node["m"], sorted(where_(x) or [])) for x in muts], ent.node["sp"])
+        occ_muts = [x for x in S.sites() if x.node.get("k") == "MethodCall" and x.node["m"] in ("insert", "remove", "get_mut", "into_mut", "remove_entry")
+                    and where_(x) == {"Occupied"}]
+        R.check(not occ_muts, rule, fn, "the Occupied arm changes nothing", str([x.node["m"] for x in occ_muts]), occ["sp"])
         # index = len() before the push, inserted into the entry
-        stmts = vac["body"].get("stmts", []) if vac["body"].get("k") == "Block" else []
-        idx_name = None
-        i_len = i_push = i_ins = None
-        for i, st in enumerate(stmts):
-            if st.get("k") == "SLet" and "init" in st:
-                ini = strip(st["init"])
-                if ini.get("k") == "MethodCall" and ini["m"] == "len" and _reg_field(ini["recv"]) == vecf:
-                    idx_name, i_len = st["pat"].get("name"), i
-            for c in exprs(st, "MethodCall", into_closures=False):
-                if c["m"] == "push" and _reg_field(c["recv"]) == vecf:
-                    i_push = i
-                if c["m"] == "insert" and local_name(c["recv"]) in pat_bindings(vac["pat"]):
-                    i_ins = i
-                    a0 = strip(c["args"][0])
-                    inner = a0["args"][0] if a0.get("k") == "Call" and a0.get("args") else a0
-                    ins_ok = local_name(inner) == idx_name
-                    ctor = last_seg(norm(a0.get("callee", ""))) if a0.get("k") == "Call" else None
-                    R.check(ins_ok and (kind is None or ctor == kind), rule, fn,
-                            "the entry records the new element's index%s" % ((" as SchemeItem::" + kind) if kind else ""),
-                            "inserted %s(%s)" % (ctor, local_name(inner)), c["sp"])
+        order = S.sites()
+        lens = [x for x in order if x.node.get("k") == "MethodCall" and x.node["m"] == "len" and _reg_field(x.node["recv"]) == vecf]
+        ins = [x for x in order if x.node.get("k") == "MethodCall" and x.node["m"] == "insert" and "VacantEntry" in norm(strip(x.node["recv"]).get("ty", ""))]
+        i_len = order.index(lens[0]) if lens else None
+        i_push = order.index(muts[0]) if len(muts) == 1 else None
+        i_ins = order.index(ins[0]) if ins else None
+        for x in ins:
+            a0 = strip(x.node["args"][0])
+            inner = a0["args"][0] if a0.get("k") == "Call" and a0.get("args") else a0
+            ins_ok = bool(lens) and S.resolve(inner, x.frame).node is lens[0].node
+            ctor = last_seg(norm(a0.get("callee", ""))) if a0.get("k") == "Call" else None
+            R.check(ins_ok and (kind is None or ctor == kind) and where_(x) == {"Vacant"}, rule, fn,
+                    "the entry records the new element's index%s" % ((" as SchemeItem::" + kind) if kind else ""),
+                    "inserted %s(%s)" % (ctor, local_name(inner)), x.node["sp"])
         R.check(None not in (i_len, i_push, i_ins) and i_len < i_push, rule, fn,
-                "index taken from len() before the push", "len@%s push@%s insert@%s" % (i_len, i_push, i_ins), vac["sp"])
-        tv = tail(vac["body"])
-        R.check(norm(tv.get("callee", "")) == "core::result::Result::Ok", rule, fn, "a fresh name succeeds", where=vac["sp"])
+                "index taken from len() before the push", "len@%s push@%s insert@%s" % (i_len, i_push, i_ins), ent.node["sp"])
+        R.check(bool(vac_ok), rule, fn, "a fresh name succeeds", where=ent.node["sp"])
         # Occupied reports what it found
         if kind is not None:
             # (also through a private helper of the same file)
@@ -172,9 +168,7 @@ def rule_vacant(E, R):
             R.check({k: sorted(v) for k, v in tbl.items()} == {k: sorted(v) for k, v in want.items()}, rule, fn,
                     "a taken name fails with the kind (field / function) that holds it", str(tbl), occ["sp"])
         else:
-            to = tail(occ["body"])
-            ok = norm(to.get("callee", "")) == "core::result::Result::Err" and \
-                any("ListRedefinitionError" in norm(c.get("callee", "")) for c in exprs(to, "Call"))
+            ok = all(any("ListRedefinitionError" in norm(c.get("callee", "")) for c in exprs(x.node, "Call")) for x in occ_err)
             R.check(ok, rule, fn, "a second list for the same type fails", where=occ["sp"])
     # sibling agreement of the two identifier adders is implied by both matching the same table
     for fn, opt in ((SB + "::add_field", False), (SB + "::add_optional_field", True)):
@@ -273,8 +267,14 @@ def rule_exact(E, R):
     if looked is not None:
         i = strip(looked)
         if norm(i.get("callee", "")) == "lex::span" and len(i.get("args", [])) == 2:
-            start_init = let_init(hi["body"], local_name(i["args"][0])) if local_name(i["args"][0]) else None
-            name_ok = start_init is not None and is_param(start_init, hi, 0) and is_param(i["args"][1], hi, 0)
+            # span(<start of the text>, <cursor after the last segment>): both derive from the input parameter; the first is
+            # never reassigned, the second is the variable the scanning loop advances
+            Si = sem.Sem(E, hi, inline=False)
+            a_b = Si.lookup(sem.peel(i["args"][0]), Si.root)
+            c_b = Si.lookup(sem.peel(i["args"][1]), Si.root)
+            name_ok = a_b is not None and c_b is not None and a_b is not c_b and a_b.assigns == 0 and c_b.assigns > 0 and \
+                sem.param_index(Si, i["args"][0], Si.root, through_mut=True) == 0 and \
+                sem.param_index(Si, i["args"][1], Si.root, through_mut=True) == 0
     R.check(len(look) == 1 and name_ok, rule, fi,
             "the whole maximal dotted run is looked up (no prefix fallback)", where=hi["span"])
     S = sem.Sem(E, hi)
